@@ -335,6 +335,13 @@ def parseOp (parts : List String) (pjHist : Array (JFile PatchesState)) (sjHist 
     let ca ← f.lookup "ca" >>= decTok
     let libs ← f.lookup "libs" >>= (fun s => mapM' decTok (splitList "," s))
     let yaml ← f.lookup "yaml" >>= parseYaml
+    -- `n=`: the count the C caller passed, when it is not the length of the list (never larger): the library reads
+    -- that many entries, none for a count of zero or less
+    let libs ← match f.lookup "n" with
+      | none => some libs
+      | some s => (match s.toInt? with
+        | some k => some (libs.take k.toNat)
+        | none => none)
     pure (.init { version := ver, storage := st, cache := ca, libapps := libs, yaml := yaml })
   | ["restart"] => some .restart
   | ["start"] => some .start
